@@ -29,7 +29,7 @@ HERE = os.path.dirname(os.path.abspath(__file__))
 # atoms: immutable Python values <-> integers (pure functions, identical in every interpreter)
 # ------------------------------------------------------------------------------------------------
 WEIGHTS = [w for n in (1, 2, 3) for w in itertools.product((1.0, -1.0), repeat=n)] + [(2.0,), (-0.5, 2.0)]
-TYPECODES = ["b", "i", "d"]
+TYPECODES = ["b", "i", "d", "f", "l", "H"]
 NONE_ATOM = 5000
 FLOAT_BASE = 100000
 
@@ -336,6 +336,8 @@ def cop(op):
         return "(OClone %d)" % op[1]
     if op[0] == "pickle":
         return "(OPickle %d)" % op[1]
+    if op[0] == "group":
+        return "(OGroup [%s])" % ";".join("%d%%nat" % i for i in op[1])
     return "(OMut %d %s)" % (op[1], cmut(op[2]))
 
 
@@ -467,7 +469,7 @@ def inst_mutables(x, acc=None, through_class=False):
 # ------------------------------------------------------------------------------------------------
 def numeric_kind(x):
     if isinstance(x, array.array):
-        return "f" if x.typecode in "fd" else "i"
+        return "f" if x.typecode in "fd" else ("u" if x.typecode in "BHILQ" else "i")
     return "f" if x.dtype.kind == "f" else "i"
 
 
@@ -523,7 +525,9 @@ def choose_mutation(rng, x, k, fresh):
         opts += [("append", [rng.choice([6000, 6001, 6002, 6003, 6100 + rng.randint(0, 9)])]),
                  ("setitems", [6001, 6003])]
     elif k in (K_ARRAY, K_BUF) and isinstance(x, array.array):
-        mk = (lambda: fl(rng.randint(-40, 40))) if numeric_kind(x) == "f" else (lambda: rng.randint(-100, 100))
+        nk = numeric_kind(x)
+        mk = (lambda: fl(rng.randint(-40, 40))) if nk == "f" else \
+            ((lambda: rng.randint(0, 100)) if nk == "u" else (lambda: rng.randint(-100, 100)))
         opts += [("append", [mk()]), ("setitems", [mk() for _ in range(rng.randint(0, 3))])]
     elif k in (K_ND, K_BUF):
         if len(x) > 0 and x.ndim == 1:
@@ -671,8 +675,10 @@ def main(run):
         if code == 1:
             return [rng.choice([rng.randint(-9, 9), fl(rng.randint(-8, 8))]) for _ in range(n)]
         if code == 2:
-            if tc == "d":
+            if tc in ("d", "f"):
                 return [fl(rng.randint(-40, 40)) for _ in range(n)]
+            if tc == "H":
+                return [rng.randint(0, 100) for _ in range(n)]
             return [rng.randint(-100, 100) for _ in range(n)]
         if code == 3:
             if rng.random() < 0.5:
@@ -737,14 +743,17 @@ def main(run):
         if is_created_class(type(x)) and class_snapshot(type(c)) != class_snapshot(type(x)):
             run.oracle_violation("%s: class-level attributes differ" % how, case)
         # content
-        if tolists(obj_items(c, kx)) != tolists(obj_items(x, kx)) and not (kx == K_TREE and list(c) == list(x)):
+        if [snapshot(e) for e in obj_items(c, kx)] != [snapshot(e) for e in obj_items(x, kx)] or \
+                (kx in (K_LIST, K_TREE, K_PYLIST) and not all(kind_of(e) is not None or a == e for a, e in zip(list(c), list(x)))):
             run.oracle_violation("%s: content differs" % how, case, observed=[repr(obj_items(x, kx)), repr(obj_items(c, kx))])
         if kx == K_ARRAY and c.typecode != x.typecode:
             run.oracle_violation("%s: typecode differs" % how, case)
         if kx == K_ND and (c.dtype != x.dtype or c.shape != x.shape) and len(x) > 0:
             run.oracle_violation("%s: dtype/shape differs" % how, case)
         # fitness values and validity
-        for n, v in vars(x).items():
+        xvars = vars(x) if hasattr(x, "__dict__") else {}
+        cvars = vars(c) if hasattr(c, "__dict__") else {}
+        for n, v in xvars.items():
             if isinstance(v, base.Fitness):
                 w = getattr(c, n, None)
                 if not isinstance(w, base.Fitness) or w.valid != v.valid or w.values != v.values or \
@@ -753,8 +762,8 @@ def main(run):
         # extra attributes
         if kx in (K_FIT, K_CFIT):
             pass        # attributes stored on a fitness object itself are outside the statement
-        elif sorted(vars(x)) != sorted(vars(c)):
-            run.oracle_violation("%s: attribute names differ" % how, case, observed=[sorted(vars(x)), sorted(vars(c))])
+        elif sorted(xvars) != sorted(cvars):
+            run.oracle_violation("%s: attribute names differ" % how, case, observed=[sorted(xvars), sorted(cvars)])
         if snapshot(x) != snapshot(c):
             run.oracle_violation("%s: attributes differ" % how, case, observed=[repr(snapshot(x)), repr(snapshot(c))])
         # no shared mutable state
@@ -794,7 +803,8 @@ def main(run):
         """force (the exhaustive grid): {"base": 0..7, "nobj": 1..3, "valid": bool, "proto": 0..5, "cycle": bool}"""
         force = force or {}
         bases = [(list, 1, None), (array.array, 2, "b"), (array.array, 2, "i"), (array.array, 2, "d"),
-                 (numpy.ndarray, 3, None), (set, 4, None), (dict, 5, None), (gp.PrimitiveTree, 6, None)]
+                 (numpy.ndarray, 3, None), (set, 4, None), (dict, 5, None), (gp.PrimitiveTree, 6, None),
+                 (array.array, 2, "f"), (array.array, 2, "l"), (array.array, 2, "H")]
         pybase, code, tc = bases[force.get("base", idx) % len(bases)]
         fresh_box[0] = itertools.count(200)
         # fitness classes
@@ -943,12 +953,18 @@ def main(run):
                 # fresh interpreter
                 d1 = describe([roots[i]])
                 exp = {"case": case_op, "snapshot": repr(snapshot(roots[i])),
-                       "class": repr(class_snapshot(type(roots[i]))), "desc": (d1[0], d1[1])}
+                       "class": repr(class_snapshot(type(roots[i]))) if is_created_class(type(roots[i])) else None,
+                       "desc": (d1[0], d1[1])}
                 fresh_jobs.append({"what": "object", "blob": base64.b64encode(blob).decode()})
                 fresh_expect.append(exp)
                 pairs.append((roots[i], c, "pickle protocol %d" % proto))
                 roots.append(c)
                 nontrivial = nontrivial or len(inst_mutables(c)) > 1
+            elif r < 0.69 and force_cls is None:
+                # a population: a plain list of some of the objects (an object may appear twice)
+                js = [rng.randrange(len(roots)) for _ in range(rng.randint(1, 3))]
+                roots.append([roots[j] for j in js])
+                op = ("group", js)
             elif r < 0.75:
                 # instantiate a created class present in the description
                 ks = [n for n, o in enumerate(pyobjs) if kind_of(o) == K_CLASS]
@@ -1011,7 +1027,7 @@ def main(run):
     # exhaustive grid: every base type / typecode x every pickle protocol x 1..3 objectives x valid / invalid fitness
     # (x with / without a reference cycle through the individual in the thorough tier)
     grid = [dict(base=b, nobj=n, valid=v, proto=p, cycle=c)
-            for b in range(8) for p in range(6) for n in (1, 2, 3) for v in (True, False)
+            for b in range(11 if run.thorough else 8) for p in range(6) for n in (1, 2, 3) for v in (True, False)
             for c in ((False, True) if run.thorough else ((b + p + n + v) % 2 == 0,))]
     nscen = run.scale(100, 1600)
     jobs = [(i, None) for i in range(nscen)] + [(i, g) for i, g in enumerate(grid)]
